@@ -44,4 +44,33 @@ theorem xoshiro_jump_translated (s : Xoshiro.S) : Scalar.xoshiro.jump s.s0 s.s1 
 theorem rng_f32_translated (w : BitVec 32) : Scalar.util.rng_f32 w = rngF32 w := rfl
 theorem rng_f64_translated (w : BitVec 64) : Scalar.util.rng_f64 w = rngF64 w := rfl
 
+/-! ### the `Rng` impl methods and `from_seed`, as translated
+
+`m_<method>` is the body of `impl Rng for <Generator>`'s method as a function of the one field `state` (result, new state); `from_seed` is the
+inherent constructor, with `SplitMix64::from_seed(seed)` / `master.next_u64()` inside `Xoshiro256::from_seed` resolved to SplitMix64's own
+translated constructor and method.  The model's `WordGen` instances and `fromSeed` functions are these translations. -/
+
+theorem splitmix_methods_translated (s : BitVec 64) :
+    Scalar.splitmix.m_next_u32 s = SplitMix.gen.u32 s ∧ Scalar.splitmix.m_next_u64 s = SplitMix.gen.u64 s ∧
+    Scalar.splitmix.m_jump s = SplitMix.gen.jump s ∧ Scalar.splitmix.from_seed s = SplitMix.fromSeed s := ⟨rfl, rfl, rfl, rfl⟩
+
+theorem wyrand_methods_translated (s : BitVec 64) :
+    Scalar.wyrand.m_next_u32 s = Wyrand.gen.u32 s ∧ Scalar.wyrand.m_next_u64 s = Wyrand.gen.u64 s ∧
+    Scalar.wyrand.m_jump s = Wyrand.gen.jump s ∧ Scalar.wyrand.from_seed s = Wyrand.fromSeed s := ⟨rfl, rfl, rfl, rfl⟩
+
+/-- the four state words of a model state as the translation passes them -/
+def words4 (s : Xoshiro.S) : BitVec 64 × BitVec 64 × BitVec 64 × BitVec 64 := (s.s0, s.s1, s.s2, s.s3)
+
+/-- Xoshiro256: `next_u32` and the float draws take the HIGH bits of the xoshiro256+ output, `next_u64` is xoshiro256++ -/
+theorem xoshiro_methods_translated (s : Xoshiro.S) :
+    Scalar.xoshiro.m_next_u32 s.s0 s.s1 s.s2 s.s3 = ((Xoshiro.gen.u32 s).1, words4 (Xoshiro.gen.u32 s).2) ∧
+    Scalar.xoshiro.m_next_u64 s.s0 s.s1 s.s2 s.s3 = ((Xoshiro.gen.u64 s).1, words4 (Xoshiro.gen.u64 s).2) ∧
+    Scalar.xoshiro.m_next_f32 s.s0 s.s1 s.s2 s.s3 = ((Xoshiro.gen.f32 s).1, words4 (Xoshiro.gen.f32 s).2) ∧
+    Scalar.xoshiro.m_next_f64 s.s0 s.s1 s.s2 s.s3 = ((Xoshiro.gen.f64 s).1, words4 (Xoshiro.gen.f64 s).2) := ⟨rfl, rfl, rfl, rfl⟩
+
+/-- **`Xoshiro256::from_seed` (= `urandom::seeded`)**: the state is four successive outputs of a SplitMix64 seeded with the seed - nothing else
+(no re-draw, no special seed), for every one of the 2^64 seeds -/
+theorem xoshiro_from_seed_translated (seed : BitVec 64) :
+    Scalar.xoshiro.from_seed seed = words4 (Xoshiro.fromSeed seed) := rfl
+
 end Urandom.C01
